@@ -649,7 +649,7 @@ func e2eGen(rng *rand.Rand, i int) e2eInput {
 	same := i%4 == 2
 	if same {
 		// (files are needed to see the header: the continuous recorder always writes some)
-		in.Const, in.WindowClosed, in.DiskFull, in.DiskMode = true, false, false, 0
+		in.Const, in.WindowClosed, in.DiskFull, in.DiskMode = constOK, false, false, 0
 	}
 	if rng.Intn(2) == 0 || same {
 		// a first connection from another camera (other model / resolution / frame rate) before the one under test
@@ -698,7 +698,7 @@ func e2eGen1(rng *rand.Rand, i int) e2eInput {
 	in.MaxSecs = in.MinSecs + rng.Intn(6)
 	in.PreviewSecs = rng.Intn(3)
 	in.SetRecorderDefaults = rng.Intn(8) == 0
-	in.Const = rng.Intn(2) == 0
+	in.Const = rng.Intn(2) == 0 && constOK
 	in.Throttle = []string{"off", "transparent", "transparent", "impossible"}[rng.Intn(4)]
 	in.DeviceName = []string{"verif-cam", "possum-17", "a b c"}[rng.Intn(3)]
 	in.DeviceID = []int{0, 7, 123456, -3}[rng.Intn(4)]
